@@ -201,3 +201,120 @@ const opdef_t ops_divz[] = {
   {"mpz_congruent_p", op_congruent_p}, {"mpz_congruent_ui_p", op_congruent_ui_p}, {"mpz_congruent_2exp_p", op_congruent_2exp_p},
   {0, 0}
 };
+
+/* ================= multi-limb mpn layer =================
+   Inputs are checked against each function's ASSERTed preconditions (NEED -> "?args" otherwise).
+   Destinations have guard limbs (`!oob`); read-only operands are compared with a copy afterwards (`!modified`). */
+#define VEC2 (argc >= 2 && a[0].kind == T_VEC && a[1].kind == T_VEC)
+static mp_limb_t *dcopy(const mp_limb_t *p, long n) { mp_limb_t *r = dst_new(n); memcpy(r, p, n * sizeof *r); return r; }
+static void fin(out_t *o, mp_limb_t *p, long n) { if (!dst_ok(p, n)) out_err(o, "oob"); dst_free(p); }
+static void unchanged(out_t *o, const mp_limb_t *p, const tok_t *t) { if (memcmp(p, t->d, t->n * sizeof *p)) out_err(o, "modified"); }
+#define TOPNZ(t) ((t).n >= 1 && (t).d[(t).n - 1] != 0)
+#define NORMD(t) ((t).n >= 1 && ((t).d[(t).n - 1] >> 63))
+
+static int op_mpn_tdiv_qr(int argc, tok_t *a, out_t *o) {
+  NEED(VEC2 && argc == 2);
+  long nn = a[0].n, dn = a[1].n;
+  if (dn == 0) {                                       /* case 0: DIVIDE_BY_ZERO */
+    mp_limb_t *qp = dst_new(nn + 1), *rp = dst_new(1);
+    int e = GUARD(mpn_tdiv_qr(qp, rp, 0, a[0].d, nn, a[1].d, 0));
+    if (e) out_div0(o); else out_err(o, "noexc");
+    dst_free(qp); dst_free(rp); return 0;
+  }
+  NEED(TOPNZ(a[1]) && nn >= dn);
+  mp_limb_t *np = dcopy(a[0].d, nn), *dp = dcopy(a[1].d, dn), *qp = dst_new(nn - dn + 1), *rp = dst_new(dn);
+  mpn_tdiv_qr(qp, rp, 0, np, nn, dp, dn);
+  out_vec(o, qp, nn - dn + 1); out_vec(o, rp, dn);
+  unchanged(o, np, &a[0]); unchanged(o, dp, &a[1]);
+  fin(o, qp, nn - dn + 1); fin(o, rp, dn); fin(o, np, nn); fin(o, dp, dn); return 0;
+}
+static int op_mpn_tdiv_q(int argc, tok_t *a, out_t *o) {
+  NEED(VEC2 && argc == 2 && TOPNZ(a[1]) && a[0].n >= a[1].n);
+  long nn = a[0].n, dn = a[1].n;
+  mp_limb_t *np = dcopy(a[0].d, nn), *dp = dcopy(a[1].d, dn), *qp = dst_new(nn - dn + 1);
+  mpn_tdiv_q(qp, np, nn, dp, dn);
+  out_vec(o, qp, nn - dn + 1);
+  unchanged(o, np, &a[0]); unchanged(o, dp, &a[1]);
+  fin(o, qp, nn - dn + 1); fin(o, np, nn); fin(o, dp, dn); return 0;
+}
+static int op_mpn_divrem(int argc, tok_t *a, out_t *o) {
+  NEED(VEC2 && argc == 3 && IS_UI(a[2]) && NORMD(a[1]) && a[0].n >= a[1].n);
+  long nn = a[0].n, dn = a[1].n, qxn = tok_long(&a[2]); NEED(qxn <= 4096);
+  long qn = nn - dn + qxn;
+  mp_limb_t *np = dcopy(a[0].d, nn), *dp = dcopy(a[1].d, dn), *qp = dst_new(qn);
+  mp_limb_t qh = mpn_divrem(qp, qxn, np, nn, dp, dn);
+  out_vec(o, qp, qn); out_vec(o, np, dn); out_ulong(o, qh);
+  unchanged(o, dp, &a[1]);
+  fin(o, qp, qn); fin(o, np, nn); fin(o, dp, dn); return 0;
+}
+
+/* qh = f (qp, np, nn, dp, dn, dinv) with dinv = mpir_invert_pi1 (dp[dn-1], dp[dn-2]); kind 0: q and r, 1: q only (approx) */
+typedef mp_limb_t (*fpi1_t)(mp_ptr, mp_ptr, mp_size_t, mp_srcptr, mp_size_t, mp_limb_t);
+static int do_pi1(fpi1_t f, long min_dn, long min_qn, int approx, int argc, tok_t *a, out_t *o) {
+  NEED(VEC2 && argc == 2 && NORMD(a[1]) && a[1].n >= min_dn && a[0].n >= a[1].n + min_qn);
+  long nn = a[0].n, dn = a[1].n, qn = nn - dn;
+  mp_limb_t *np = dcopy(a[0].d, nn), *dp = dcopy(a[1].d, dn), *qp = dst_new(qn), dinv;
+  mpir_invert_pi1(dinv, dp[dn - 1], dp[dn - 2]);
+  mp_limb_t qh = f(qp, np, nn, dp, dn, dinv);
+  out_vec(o, qp, qn); if (!approx) out_vec(o, np, dn); out_ulong(o, qh);
+  unchanged(o, dp, &a[1]);
+  fin(o, qp, qn); fin(o, np, nn); fin(o, dp, dn); return 0;
+}
+static int op_sb_div_qr(int c, tok_t *a, out_t *o) { return do_pi1(mpn_sb_div_qr, 3, 0, 0, c, a, o); }
+static int op_dc_div_qr(int c, tok_t *a, out_t *o) { return do_pi1(mpn_dc_div_qr, 6, 3, 0, c, a, o); }
+static int op_sb_divappr_q(int c, tok_t *a, out_t *o) { return do_pi1(mpn_sb_divappr_q, 3, 1, 1, c, a, o); }   /* nn == dn passes the ASSERT but stores qp[0]: needs nn > dn */
+static int op_dc_divappr_q(int c, tok_t *a, out_t *o) { return do_pi1(mpn_dc_divappr_q, 6, 3, 1, c, a, o); }
+
+/* qh = f (qp, np, nn, dp, dn, inv) with {inv, dn} = mpn_invert (dp, dn) */
+typedef mp_limb_t (*finv_t)(mp_ptr, mp_ptr, mp_size_t, mp_srcptr, mp_size_t, mp_srcptr);
+static int do_inv(finv_t f, long min_qn, int approx, int argc, tok_t *a, out_t *o) {
+  NEED(VEC2 && argc == 2 && NORMD(a[1]) && a[1].n >= 6 && a[0].n >= a[1].n + min_qn);
+  long nn = a[0].n, dn = a[1].n, qn = nn - dn;
+  mp_limb_t *np = dcopy(a[0].d, nn), *dp = dcopy(a[1].d, dn), *qp = dst_new(qn), *inv = dst_new(dn);
+  mpn_invert(inv, dp, dn);
+  mp_limb_t qh = f(qp, np, nn, dp, dn, inv);
+  out_vec(o, qp, qn); if (!approx) out_vec(o, np, dn); out_ulong(o, qh);
+  unchanged(o, dp, &a[1]);
+  fin(o, qp, qn); fin(o, np, nn); fin(o, dp, dn); fin(o, inv, dn); return 0;
+}
+static int op_inv_div_qr(int c, tok_t *a, out_t *o) { return do_inv(mpn_inv_div_qr, 3, 0, c, a, o); }
+static int op_inv_divappr_q(int c, tok_t *a, out_t *o) { return do_inv(mpn_inv_divappr_q, 1, 1, c, a, o); }
+
+static int op_sb_bdiv_q(int argc, tok_t *a, out_t *o) {
+  NEED(VEC2 && argc == 2 && a[1].n >= 1 && (a[1].d[0] & 1) && a[0].n >= a[1].n);
+  long nn = a[0].n, dn = a[1].n;
+  mp_limb_t *np = dcopy(a[0].d, nn), *dp = dcopy(a[1].d, dn), *qp = dst_new(nn), *wp = dst_new(2), dinv;
+  modlimb_invert(dinv, dp[0]);
+  mpn_sb_bdiv_q(qp, wp, np, nn, dp, dn, dinv);
+  out_vec(o, qp, nn); out_vec(o, wp, 2);
+  unchanged(o, dp, &a[1]);
+  fin(o, qp, nn); fin(o, wp, 2); fin(o, np, nn); fin(o, dp, dn); return 0;
+}
+static int op_dc_bdiv_qr(int argc, tok_t *a, out_t *o) {
+  NEED(VEC2 && argc == 2 && a[1].n >= 2 && (a[1].d[0] & 1) && a[0].n > a[1].n);
+  long nn = a[0].n, dn = a[1].n, qn = nn - dn;
+  mp_limb_t *np = dcopy(a[0].d, nn), *dp = dcopy(a[1].d, dn), *qp = dst_new(qn), dinv;
+  modlimb_invert(dinv, dp[0]);
+  mp_limb_t b = mpn_dc_bdiv_qr(qp, np, nn, dp, dn, dinv);
+  out_vec(o, qp, qn); out_vec(o, np + qn, dn); out_ulong(o, b);
+  unchanged(o, dp, &a[1]);
+  fin(o, qp, qn); fin(o, np, nn); fin(o, dp, dn); return 0;
+}
+/* only called with d | n */
+static int op_mpn_divexact(int argc, tok_t *a, out_t *o) {
+  NEED(VEC2 && argc == 2 && TOPNZ(a[1]) && a[0].n >= a[1].n);
+  long nn = a[0].n, dn = a[1].n, qn = nn - dn + 1;
+  mp_limb_t *np = dcopy(a[0].d, nn), *dp = dcopy(a[1].d, dn), *qp = dst_new(qn);
+  mpn_divexact(qp, np, nn, dp, dn);
+  out_vec(o, qp, qn);
+  unchanged(o, np, &a[0]); unchanged(o, dp, &a[1]);
+  fin(o, qp, qn); fin(o, np, nn); fin(o, dp, dn); return 0;
+}
+
+const opdef_t ops_divn[] = {
+  {"mpn_tdiv_qr", op_mpn_tdiv_qr}, {"mpn_tdiv_q", op_mpn_tdiv_q}, {"mpn_divrem", op_mpn_divrem},
+  {"mpn_sb_div_qr", op_sb_div_qr}, {"mpn_dc_div_qr", op_dc_div_qr}, {"mpn_inv_div_qr", op_inv_div_qr},
+  {"mpn_sb_divappr_q", op_sb_divappr_q}, {"mpn_dc_divappr_q", op_dc_divappr_q}, {"mpn_inv_divappr_q", op_inv_divappr_q},
+  {"mpn_sb_bdiv_q", op_sb_bdiv_q}, {"mpn_dc_bdiv_qr", op_dc_bdiv_qr}, {"mpn_divexact", op_mpn_divexact},
+  {0, 0}
+};
